@@ -195,6 +195,12 @@ def run(R):
             if a is None:
                 raise HarnessError(f'cannot parse CrossHair counterexample: {msg}')
             r = _replay(H, kind, meta, a)
+            if r is None and stub:
+                # found under ARBITRARY symbolic pool prices, but the real rate table orders the pools differently: not
+                # reproduced on the real code => no VIOLATION; the obligation stays open
+                R.ob(name, 'not_discharged', dt, {'crosshair': msg[-300:], 'note': 'counterexample under symbolic prices does '
+                     'not reproduce with the real price computation'})
+                continue
             if r is None:
                 raise HarnessError(f'CrossHair counterexample does not reproduce on the real code: {fn}: {msg}')
             cls, why = r
